@@ -58,6 +58,10 @@ type crasher struct {
 	off    atomic.Bool
 	// stats
 	classes map[string]int
+	// one-shot injected fault (see armFault)
+	faultClass     atomic.Value
+	faultCountdown atomic.Int64
+	faultFired     atomic.Bool
 }
 
 func fileClass(path string) string {
@@ -94,9 +98,30 @@ func isMutation(k errorfs.OpKind) bool {
 	return false
 }
 
+// armFault makes the k-th following creation of a file of the given class fail
+// once with errorfs.ErrInjected (k >= 1).
+func (c *crasher) armFault(class string, k int) {
+	c.faultClass.Store(class)
+	c.faultFired.Store(false)
+	c.faultCountdown.Store(int64(k))
+}
+
+func (c *crasher) disarmFault() bool {
+	c.faultCountdown.Store(0)
+	return c.faultFired.Load()
+}
+
 func (c *crasher) inject(op errorfs.Op) error {
 	if c.off.Load() || !isMutation(op.Kind) {
 		return nil
+	}
+	if op.Kind == errorfs.OpCreate && c.faultCountdown.Load() > 0 {
+		if cls, _ := c.faultClass.Load().(string); cls == fileClass(op.Path) {
+			if c.faultCountdown.Add(-1) == 0 {
+				c.faultFired.Store(true)
+				return errorfs.ErrInjected
+			}
+		}
 	}
 	// images of operations under ext/ (tables being prepared for ingestion) are
 	// crash points too: the DB state does not depend on them.
